@@ -20,7 +20,7 @@ META = {
     "level": "model_checking",
     "technique": "TLA+ query-meaning spec SQLSem.tla as the meaning of an index lookup; TLC trace validation (Trace_Index.tla) of paired executions (table with keys / key-free copy) incl. point-by-point membership of probe rows in the index ranges read off the analysed plan; TLC enumeration MC_Index.tla of filters over a small key domain executed on the engine",
     "text": "For generated tables (TINYINT / SMALLINT / INT and VARCHAR columns under utf8mb4_0900_bin and utf8mb4_0900_ai_ci; primary keys, secondary, multi-column, UNIQUE and prefix indexes; <= 14 rows with NULLs and duplicates) and generated filters over the indexed columns (=, <>, <, <=, >, >=, <=>, IN / NOT IN lists, IS [NOT] NULL, [NOT] BETWEEN, literal on either side, AND / OR / NOT nesting; literals incl. NULL, the type's boundary values and values outside the type such as 200 / -200 / 128 against TINYINT and 70000 / 32768 against SMALLINT) the same SELECT is run against the table with its keys and against a key-free copy with identical rows. TLC decides per case that each result is the set of rows on which the filter IS TRUE and that the two are equal as bags; when the plan of the keyed variant contains an index access (counted as non-trivial; measured per key kind) the lookup's ranges are read off the plan and TLC checks on probe rows around the literals and stored values that the ranges contain every point where the filter is TRUE (and nothing else when no Filter node remains), and that the returned rows are exactly / among the rows whose key lies in the ranges. TLC additionally draws (table of <= 3 rows, filter of <= 3 atoms) cases over the key domain {NULL,0,1,2} which are executed over six index layouts and three integer types.",
-    "note": "Interpreted fragment only (int32-safe integers, strings over [0-9A-Za-z ], comparisons within one family and collation). The in-memory backend stores whole values in prefix indexes; the property is checked as stated (result equality), membership is evaluated on whole values. One open finding (IN list over an _ai_ci column compares binary in the scan but not in the index range) is replayed as a witness; the generator produces that shape rarely. Trusted: TLC, the SQL renderer / value normaliser (representation only), the reading of sql.MySQLRangeCut values into cut records.",
+    "note": "Interpreted fragment only (int32-safe integers, strings over [0-9A-Za-z ], comparisons within one family and collation). The in-memory backend stores whole values in prefix indexes; the property is checked as stated (result equality), membership is evaluated on whole values. Two open findings (IN list over an _ai_ci column compares binary in the scan but not in the index range; IN list whose members all lie outside the integer type of a single-column index returns every row / panics) are replayed as witnesses; the generator produces those shapes rarely. Trusted: TLC, the SQL renderer / value normaliser (representation only), the reading of sql.MySQLRangeCut values into cut records.",
     "design_ref": "§7 C03, Appendix A (secondary indexes)",
 }
 
